@@ -49,6 +49,22 @@ CHECKS = {
                  'future.Apply/Apply2: C06.',
         assumptions=['panic values are compared by their canonical rendering', 'debug.Stack() content of try.panicError is not modelled'],
     ),
+    'C06': dict(
+        spec=['FpVerif.Spec.C06'],
+        harnesses=[H('future', 'oracle_future', 3000, 150000, spec_level=True)],
+        level='proof',
+        level_note='trusted: Lean kernel (propext/Classical.choice/Quot.sound only); model fidelity checked by correspondence (statuses of every future, '
+                   'callback log and pool size compared after EVERY scenario under the same schedule, i.e. the task structure itself is compared). '
+                   'PARTIAL: proved at task granularity (one ExecuteUnsafe-d runnable = one atomic step; the reduction from atomic-step granularity is C05); '
+                   'proved: single assignment and exactly-once task delivery under every event sequence, monotone three-valued Try semantics of every '
+                   'derived combinator; the global invariant linking the operational network to that semantics for every schedule is in progress '
+                   '(Spec/C06Sound.lean) — until then schedule-independence of the VALUES is established by the direct three-valued evaluation in the harness.',
+        modelled='future.go (Promise cell, OnComplete, Future methods Map/FlatMap/Recover*/Or/OrFuture/Failed), future/future_op.go (Successful, Failed, '
+                 'Apply/Apply2, FlatMap, Map, Map2, Zip, Zip3/LiftA3, LiftM via Flatten(Map), Compose, Method1, FlapMap, Transform, TransformWith, Sequence, '
+                 'Traverse/TraverseSeq via iterator.FoldFuture). Not modelled: Await/timeouts, MonadChainN/ApplicativeFunctorN builders, inline executors.',
+        assumptions=['a task body runs atomically (task-atomic model); promises are atomic single-assignment cells (justified by C05)',
+                     'user callbacks do not panic inside tasks (a panic in a callback goroutine terminates the program; only Apply/Apply2 recover)'],
+    ),
     'C16': dict(
         spec=['FpVerif.Spec.C16', 'FpVerif.Spec.C16Facts'],
         facts=facts_factx,
@@ -74,7 +90,7 @@ CHECKS = {
     ),
 }
 
-HOOK_COMMITS = []
+HOOK_COMMITS = ['068ea8a']
 
 NOT_APPLICABLE = {
     'C13': "byte-level reproducibility of three generator executables over a file tree: no executable Lean model short of a model of "
